@@ -14,9 +14,12 @@ fn gen_cases(rng: &mut Rng, tier: Tier) -> Vec<Value> {
     let n = if tier == Tier::Thorough { 40000 } else { 2000 };
     (0..n)
         .map(|i| {
-            let mut case = gen_case(rng, "single");
+            // every fifth candidate is a multi-task job (pickup then delivery of one shipment), always with a value: the quote of
+            // the sequential search against the realised change, per additive layer (oracle only, no model of eval_multi)
+            let multi = i % 5 == 4;
+            let mut case = gen_case(rng, if multi { "multi" } else { "single" });
             // two cases in three carry job values (maximize-value layer after the transport layer), read per job or per (actor, job)
-            if i % 3 != 0 {
+            if i % 3 != 0 || multi {
                 let k = case["tour"].as_array().unwrap().len();
                 let tour: Vec<i64> = (0..k).map(|_| rng.range(0, 20)).collect();
                 case["values"] = json!({"tour": tour, "job": rng.range(0, 20), "mode": if i % 3 == 1 { "job" } else { "actor" }});
@@ -48,6 +51,26 @@ fn exec(case: &Value) -> Value {
     let legs = route_ctx.route().tour.legs().count();
     let leg_selection = LegSelection::Exhaustive;
     let result_selector = BestResultSelector::default();
+    if case["k"] == "multi" {
+        // one row: the best placement of the whole job (`Any`), carried out by the real construction heuristic
+        let eval_ctx = EvaluationContext { goal: &ec.problem.goal, job: &job, leg_selection: &leg_selection, result_selector: &result_selector };
+        let quote = eval_job_insertion_in_route(&ec.ctx, &eval_ctx, &route_ctx, InsertionPosition::Any, InsertionResult::make_failure());
+        let InsertionResult::Success(success) = quote else { return json!({"rows": [Value::Null]}) };
+        let acts: Vec<Value> = success
+            .activities
+            .iter()
+            .map(|(a, idx)| {
+                json!({"idx": idx, "place": a.place.idx, "loc": a.place.location, "dur": a.place.duration as i64,
+                       "tw": [a.place.time.start as i64, a.place.time.end as i64]})
+            })
+            .collect();
+        let heuristic = InsertionHeuristic::new(Box::new(PositionInsertionEvaluator::default()));
+        let result = heuristic.process(ec.ctx.deep_copy(), &AllJobSelector::default(), &AllRouteSelector::default(), &leg_selection, &result_selector);
+        let inserted = result.solution.routes.iter().any(|r| r.route().tour.jobs().any(|j| *j == job));
+        assert!(inserted, "the construction heuristic did not place the multi-task job the evaluator accepted");
+        let after = ints(ec.problem.goal.fitness(&result));
+        return json!({"rows": [{"cost": ints(success.cost.iter()), "acts": acts, "before": before, "after": after}]});
+    }
     let rows: Vec<Value> = (0..legs)
         .map(|p| {
             let eval_ctx = EvaluationContext { goal: &ec.problem.goal, job: &job, leg_selection: &leg_selection, result_selector: &result_selector };
